@@ -1,41 +1,44 @@
 package flags
 
 func levenshtein(s string, t string) int {
-	if len(s) == 0 {
-		return len(t)
+	sr := []rune(s)
+	tr := []rune(t)
+
+	if len(sr) == 0 {
+		return len(tr)
 	}
 
-	if len(t) == 0 {
-		return len(s)
+	if len(tr) == 0 {
+		return len(sr)
 	}
 
-	dists := make([][]int, len(s)+1)
+	dists := make([][]int, len(sr)+1)
 	for i := range dists {
-		dists[i] = make([]int, len(t)+1)
+		dists[i] = make([]int, len(tr)+1)
 		dists[i][0] = i
 	}
 
-	for j := range t {
+	for j := range dists[0] {
 		dists[0][j] = j
 	}
 
-	for i, sc := range s {
-		for j, tc := range t {
+	for i, sc := range sr {
+		for j, tc := range tr {
 			if sc == tc {
 				dists[i+1][j+1] = dists[i][j]
 			} else {
 				dists[i+1][j+1] = dists[i][j] + 1
-				if dists[i+1][j] < dists[i+1][j+1] {
+				if dists[i+1][j]+1 < dists[i+1][j+1] {
 					dists[i+1][j+1] = dists[i+1][j] + 1
 				}
-				if dists[i][j+1] < dists[i+1][j+1] {
+				if dists[i][j+1]+1 < dists[i+1][j+1] {
 					dists[i+1][j+1] = dists[i][j+1] + 1
 				}
 			}
 		}
 	}
 
-	return dists[len(s)][len(t)]
+	return dists[len(sr)][len(tr)]
 }
 
 func closestChoice(cmd string, choices []string) (string, int) {
